@@ -191,7 +191,7 @@ def build():
         checks.append({
             'property_id': pid,
             'quick_cmd': '%s -m vt.check %s --tier quick' % (PY, pid),
-            'thorough_cmd': '%s -m vt.check %s --tier thorough' % (PY, pid),
+            'thorough_cmd': '%s -m vt.check %s --tier thorough --wall 5400' % (PY, pid),
             'evidence_file': 'evidence/%s.json' % pid,
             'replay_cmd_template': '%s -m vt.check %s --replay {path}' % (PY, pid),
             'engine': 'vt',
@@ -221,7 +221,10 @@ def build():
         'checks': checks,
         'not_applicable': na,
         'notes': 'All checks import sweetpea from /repo (editable install in /venv), i.e. the current working tree. '
-                 'Exit 0 ok / 1 VIOLATION / 2 harness error. Known findings: known_findings.json.',
+                 'Exit 0 ok / 1 VIOLATION / 2 harness error. Known findings: known_findings.json. '
+                 'Thorough commands carry an overall wall cap (--wall 5400 s; VERIF_WALL or a larger --wall lifts it): under the cap the strata are '
+                 'interleaved simplest-first and items not started are reported in the evidence (items_not_run_wall_cap, exhaustive=false), '
+                 'never counted as held.',
     }
     (ROOT / 'MANIFEST.json').write_text(json.dumps(man, indent=1) + '\n')
     return man
